@@ -18,7 +18,7 @@ pub struct Case {
 }
 
 fn strategy() -> impl Strategy<Value = Case> {
-	let cfg = GenCfg { ns_min: 2, ns_max: 3, p_missing: 15, style: TargetStyle::Arbitrary, max_classes: 6, backslash_docs: true, ..GenCfg::default() };
+	let cfg = GenCfg { ns_min: 2, ns_max: 3, p_missing: 15, style: TargetStyle::Arbitrary, max_classes: 6, backslash_docs: true, lone_surrogates: true, ..GenCfg::default() };
 	(mapset(cfg), any::<u8>(), order_seed()).prop_map(|(m, ns, order)| {
 		let ns = (ns as usize) % m.ns.len();
 		Case { m, ns, order }
